@@ -9,6 +9,7 @@ from . import canon, ref_ws, world as W
 from .ref_ws import SFrame, TEXT, BINARY, CONT, CLOSE, PING, PONG
 
 EURO = b'\xe2\x82\xac'
+CTEXT = 'compressed \u20ac compressed \u20ac compressed'.encode('utf-8')
 
 # ---------------------------------------------------------------- server alphabet (after the handshake)
 FRAME_STEPS = {
@@ -19,7 +20,11 @@ FRAME_STEPS = {
     'frag-text': lambda m: [SFrame(TEXT, EURO[:2], fin=0)],
     'frag-bin': lambda m: [SFrame(BINARY, b'\x01', fin=0)],
     'frag-cont': lambda m: [SFrame(CONT, b'' if m.kind == TEXT else b'\x02', fin=0)],
-    'frag-end': lambda m: [SFrame(CONT, EURO[2:] if m.kind == TEXT else b'\x03')],
+    'frag-end': lambda m: [SFrame(CONT, m.take_ctail() if m.ctail is not None else EURO[2:] if m.kind == TEXT else b'\x03')],
+    # compressed messages (only offered after 'hs-deflate-nct': the server resets its context after every message, so the
+    # client's inflater returns to its initial state and a fix-point exists)
+    'ctext': lambda m: [SFrame(TEXT, m.zcompress(CTEXT), rsv=4)],
+    'cfrag-text': lambda m: [SFrame(TEXT, m.zcompress(CTEXT, keep_tail=3), fin=0, rsv=4)],
     'ping': lambda m: [SFrame(PING, b'p')],
     'ping-empty': lambda m: [SFrame(PING, b'')],
     'ping-125': lambda m: [SFrame(PING, bytes(range(125)))],
@@ -28,6 +33,7 @@ FRAME_STEPS = {
     'close-1000': lambda m: [SFrame(CLOSE, ref_ws.close_payload(1000, b'bye'))],
     'close-3000': lambda m: [SFrame(CLOSE, ref_ws.close_payload(3000, b''))],
     'close-empty': lambda m: [SFrame(CLOSE, b'')],
+    'close-123': lambda m: [SFrame(CLOSE, ref_ws.close_payload(1001, ('\u20ac' * 41).encode('utf-8')))],     # the longest legal reason: 123 bytes
     'reserved-op': lambda m: [SFrame(3, b'x')],
     'bad-utf8': lambda m: [SFrame(TEXT, b'\xff')],
     'orphan-cont': lambda m: [SFrame(CONT, b'zz')],
@@ -36,8 +42,9 @@ FRAME_STEPS = {
     'ping-then-bad': lambda m: [SFrame(PING, b'z1'), SFrame(PING, b'z2'), SFrame(0xB, b'')],
     'ping-text-close': lambda m: [SFrame(PING, b'z'), SFrame(TEXT, b'c'), SFrame(CLOSE, ref_ws.close_payload(1000, b''))],
 }
-STARTS_DATA = ('frag-text', 'frag-bin', 'text', 'text-euro', 'binary', 'empty-text', 'two', 'ping-text-close')
-HS_STEPS = ('hs-ok', 'hs-split', 'hs-with-frame', 'hs-404', 'hs-bad-accept', 'hs-oversize', 'hs-deflate')
+STARTS_DATA = ('frag-text', 'frag-bin', 'text', 'text-euro', 'binary', 'empty-text', 'two', 'ping-text-close', 'ctext', 'cfrag-text')
+COMPRESSED_STEPS = ('ctext', 'cfrag-text')
+HS_STEPS = ('hs-ok', 'hs-split', 'hs-with-frame', 'hs-404', 'hs-bad-accept', 'hs-oversize', 'hs-deflate', 'hs-deflate-nct')
 ENV_STEPS = ('eof', 'err', 'silence')
 
 APP_ACTIONS = {
@@ -66,6 +73,8 @@ class ConnModel(object):
         self.depth = cfg.get('depth')             # max number of server steps (None: unbounded -> fix-point)
         self.max_frags = cfg.get('max_frags', 3)
         self.auto_pong = cfg.get('auto_pong', True)
+        self.server_nct = False
+        self.ctail = None
         self.timers = cfg.get('timers', 'relative')
         self.drop = cfg.get('drop', ('_last_pong', '_next_ping', 'sent_close_time'))
         self.strict = cfg.get('strict', True)      # full wire/event prediction (off under fault injection)
@@ -110,7 +119,7 @@ class ConnModel(object):
         return self.hs == 'done' and self.client_close is None and self.server_close is None and not self.over
 
     def ref_state(self):
-        return (self.hs, self.client_close, self.server_close, self.negotiated, self.kind, self.nparts,
+        return (self.hs, self.client_close, self.server_close, self.negotiated, self.server_nct, self.ctail is not None, self.kind, self.nparts,
                 self.ref.utf8.state if self.ref.utf8 else None, self.ref.late_utf8, self.ref.stopped is not None,
                 self.dontcare is not None, bool(self.problems), self.transport_down, self.extra_close_ok,
                 None if self.depth is None else self.depth - self.steps)
@@ -132,6 +141,8 @@ class ConnModel(object):
                     continue
             elif s in STARTS_DATA and self.kind is not None:
                 continue            # would be "new data frame inside a message"; violations are explicit steps
+            if s in COMPRESSED_STEPS and not self.server_nct:
+                continue
             out.append(s)
         return out
 
@@ -192,13 +203,19 @@ class ConnModel(object):
         req = req[:req.find(b'\r\n\r\n') + 4]
         ok = W.handshake_reply(req)
         self.hs = 'replied'
-        if name in ('hs-ok', 'hs-split', 'hs-with-frame', 'hs-deflate'):
+        if name in ('hs-ok', 'hs-split', 'hs-with-frame', 'hs-deflate', 'hs-deflate-nct'):
             self.queue.append(('ready',))
             if name == 'hs-deflate':
                 ok = W.handshake_reply(req, b'Sec-WebSocket-Extensions: permessage-deflate\r\n')
                 self.negotiated = True
                 from . import ref_deflate
                 self.ref = ref_ws.RefReceiver(ref_deflate.server_inflater(), False)
+            if name == 'hs-deflate-nct':
+                ok = W.handshake_reply(req, b'Sec-WebSocket-Extensions: permessage-deflate; server_no_context_takeover\r\n')
+                self.negotiated = True
+                self.server_nct = True
+                from . import ref_deflate
+                self.ref = ref_ws.RefReceiver(ref_deflate.server_inflater(nct=True), False)
             if name == 'hs-split':
                 return W.Data([ok[:40], ok[40:]])
             if name == 'hs-with-frame':
@@ -216,6 +233,21 @@ class ConnModel(object):
             self.queue.append(('protocol_error',))
             return W.Data(b'HTTP/1.1 101 Switching Protocols\r\nX-Pad: ' + b'x' * 17000)
         raise W.HarnessError(name)
+
+    def zcompress(self, data, keep_tail=None):
+        """One message compressed with a fresh context; with keep_tail the first `keep_tail` bytes are returned and the rest is kept
+        for the final continuation frame."""
+        import zlib
+        c = zlib.compressobj(6, zlib.DEFLATED, -15)
+        out = (c.compress(data) + c.flush(zlib.Z_SYNC_FLUSH))[:-4]
+        if keep_tail is None:
+            return out
+        self.ctail = out[keep_tail:]
+        return out[:keep_tail]
+
+    def take_ctail(self):
+        t, self.ctail = self.ctail, None
+        return t
 
     def expect_frame(self, f):
         """Reference prediction for one server frame."""
